@@ -216,7 +216,7 @@ class EChaos(Engine):
             return g.pick([{'t': 'bool', 'v': True}, {'t': 'bool', 'v': False}] + ([{'t': 'none'}] if 'Optional' in a else []))
         if 'float' in a and 'int' in a:
             if member in ('__lshift__', '__ilshift__', '__rshift__', '__irshift__'):
-                return g.pick([{'t': 'int', 'v': g.pick([0, 1, -1, 2, 7, 8, 64, 4096])}, {'t': 'arr', 'i': g.int(0, 3)}])
+                return {'t': 'int', 'v': g.pick([0, 1, -1, 2, 7, 8, 64, 4096])}
             return g.pick([{'t': 'int', 'v': g.pick([0, 1, -1, 2, 255, 256, -129, 2 ** 40, 3])}, {'t': 'float', 'v': g.pick(FLOATS)}, {'t': 'arr', 'i': g.int(0, 3)}])
         if a in ('str', "'str'"):
             return {'t': 'str', 'v': g.pick(TOKENS + BAD_STRINGS)}
@@ -301,7 +301,8 @@ class EChaos(Engine):
                     # bytes(n) of an int n allocates n bytes: only values of the dtype's own type for a bytes Array
                     spec = self._value_for_dtype(g, 'bytes')
                 elif cname == 'Array' and member in ('__lshift__', '__ilshift__', '__rshift__', '__irshift__'):
-                    spec = g.pick([{'t': 'int', 'v': g.pick([0, 1, -1, 2, 7, 8, 64, 4096])}, {'t': 'arr', 'i': g.int(0, 3)}])
+                    # (no Array operand: its items may be 2**40 and more, and 1 << 2**40 is an allocation bomb)
+                    spec = {'t': 'int', 'v': g.pick([0, 1, -1, 2, 7, 8, 64, 4096])}
                 elif cname == 'Array' and p.name in ('x', 'value', 'other') and member not in ('equals',):
                     spec = self._value_for_dtype(g, x.dtype.name) if g.chance(0.7) else self._spec_for(g, p.annotation, p.name, n, member, cname)
                 elif cname == 'Array' and p.name == 'iterable':
